@@ -1,3 +1,4 @@
+import Grexv.Lemmas.RunShape
 import Grexv.Lemmas.EndToEndRV
 import Grexv.Model.RegExp
 import Grexv.Lemmas.Sort
@@ -159,6 +160,37 @@ theorem no_counted_quantifier (cap esc ns ne : Bool) (e : Expr) (hwf : e.WF) :
     · simp at hp
     · simp only [List.mem_singleton] at hp; subst hp; trivial
 
+theorem onlyOpt_shape (cap esc ns ne : Bool) (e : Expr) :
+    Pat.OnlyOpt (Spec.catList (preA ns ++ (topItems cap esc e ++ postA ne))) := by
+  apply onlyOpt_catList
+  intro p hp
+  simp only [List.mem_append] at hp
+  rcases hp with hp | hp | hp
+  · unfold preA at hp; split at hp
+    · simp at hp
+    · simp only [List.mem_singleton] at hp; subst hp; trivial
+  · unfold topItems at hp
+    split at hp
+    · simp only [List.mem_singleton] at hp; subst hp; exact (both_onlyOpt cap esc e).2
+    · exact (both_onlyOpt cap esc e).1 p hp
+  · unfold postA at hp; split at hp
+    · simp at hp
+    · simp only [List.mem_singleton] at hp; subst hp; trivial
+
+/-- **C13 (no `{n}` / `{m,n}` without `-r`), on a run, all inputs** (no repetition conversion; every subset of the class options, `-i`,
+capturing groups, `-e`, any anchors; plain printing): the text `build()` returns is accepted by the model of `Regex::new` and the compiled
+pattern contains no repetition operator other than `?` -/
+theorem no_counted_quantifier_run (cfg : Config) (hp : PlainPrintNA cfg) (env : Env) (ws : List Str) (st : Stages)
+    (h : regExpFrom cfg env ws = .ok st) (hseg : ∀ w ∈ storedCases cfg env ws, SegOK env w) (hws : ws ≠ []) :
+    ∃ P, Spec.parse (fmtRegExp cfg st.finalAst) = some (⟨cfg.ci, false⟩, P) ∧ Pat.OnlyOpt P :=
+  ⟨_, (run_shape_plain cfg hp env ws st h hseg hws).2, onlyOpt_shape _ _ _ _ _⟩
+
+/-- the same in verbose mode -/
+theorem no_counted_quantifier_run_verbose (cfg : Config) (hp : VerbosePrintNA cfg) (env : Env) (ws : List Str) (st : Stages)
+    (h : regExpFrom cfg env ws = .ok st) (hseg : ∀ w ∈ storedCases cfg env ws, SegOK env w) (hws : ws ≠ []) :
+    ∃ P, Spec.parse (fmtRegExp cfg st.finalAst) = some (⟨cfg.ci, true⟩, P) ∧ Pat.OnlyOpt P :=
+  ⟨_, (run_shape_verbose cfg hp env ws st h hseg hws).2, onlyOpt_shape _ _ _ _ _⟩
+
 /-! ## with `-r`: the thresholds in the pattern the regex crate reads -/
 
 /-- **C13 with `-r`, at the level of the pattern the regex crate builds, all inputs** (`-r` with positive thresholds; every subset of the
@@ -166,7 +198,10 @@ class options, with or without `-i`, capturing groups, `-e`; any anchors — wit
 `RegExp::from` keeps; plain printing; stored test cases of at most 1000 graphemes): the returned text is accepted by the model of
 `Regex::new`, and in the compiled pattern every repetition operator is `?` or a counted repetition `{n}` / `{m,n}` whose upper count is
 **strictly greater than `minimum_repetitions`** and whose operand **matches no string shorter than `minimum_substring_length`**
-(`Pat.minLen_le`: `Pat.minLen` is a lower bound on the length of every string the operand denotes).  Chain: S4 keeps the contract at every
+(`Pat.minLen_le`: `Pat.minLen` is a lower bound on the length, in code points, of every string the operand denotes; the code and
+the S4 contract `ok` count *graphemes*, so for a unit of multi-code-point graphemes the pattern-level bound is the weaker of the two —
+`convertRepetitions_ok` is the statement in graphemes).  The property's last clause — raising a threshold can only turn quantified parts
+back into literal text — is a comparison of two runs and is not stated as a theorem; it is compared per input.  Chain: S4 keeps the contract at every
 nesting depth (`convertRepetitions_ok`), the widening merge of the trie keeps its range form (`okW_widen`), minimisation only drops
 edges, `union`/`concatenate`/the elimination only take literal clusters apart and put them together (`Lemmas/WFExprQ.lean`, for an
 arbitrary predicate on graphemes), and the parser reads each counted grapheme as one repetition node over its unit (`gThresh`). -/
